@@ -165,6 +165,7 @@ Registrar reg(Prop{
     "C08",
     "Cases are task-level operation sequences {create, delete (biased to elapsed-but-unprocessed actions), service ticks, process} on the real timer manager (pool 1..6, 1..16 in thorough) together with a schedule: "
     "at every preemption point the harness owns (before each COTmrLock acquisition, after each COTmrUnlock release, between calls) the tape decides how many tick-service calls preempt (0, 1, 2, until-next-expiry). "
+    "Mode with-clear adds COTmrClear (what an NMT reset and CONodeStop call): half of the created actions are entered in the node structure as the stack's own timers (heartbeat producer, TPDO event/inhibit, a heartbeat consumer, SYNC producer); COTmrClear must cancel exactly those - pending or elapsed-but-unprocessed - forget their ids, and leave the application's actions alone. "
     "Oracle: interval reference model (admissible due window per expiry) + pool walk after every call and every injected service. "
     "Non-trivial: at least one service call was injected at a lock boundary, or a delete hit an elapsed-but-unprocessed action. Distinct = distinct decoded choice sequence.",
     {Mode{"random", case_random, false, 3000000, 100000000, 0, 0, 260, 500},
